@@ -51,7 +51,7 @@ func (c *Compiler) validateGroupingsWalk(m parse.Node, n parse.Node) error {
 func (c *Compiler) validateAllGroupings(m parse.Node, n parse.Node) error {
 
 	for _, g := range n.ChildrenByType(parse.NodeGrouping) {
-		group_map := make(map[string]bool)
+		group_map := make(map[parse.Node]bool)
 		if err := c.validateGrouping(m, g, group_map); err != nil {
 			return err
 		}
@@ -62,16 +62,18 @@ func (c *Compiler) validateAllGroupings(m parse.Node, n parse.Node) error {
 func (c *Compiler) validateGrouping(
 	m parse.Node,
 	g parse.Node,
-	group_map map[string]bool) error {
+	group_map map[parse.Node]bool) error {
 
-	if _, present := group_map[g.Name()]; present {
+	// The chain is one of grouping statements, not of names: groupings
+	// defined in different scopes may have the same name.
+	if _, present := group_map[g]; present {
 		return fmt.Errorf("Grouping cycle detected in: grouping %s", g.Name())
 	}
 
 	// group_map holds the chain of groupings that led here: a grouping that
 	// is used twice along different chains is not a cycle.
-	group_map[g.Name()] = true
-	defer delete(group_map, g.Name())
+	group_map[g] = true
+	defer delete(group_map, g)
 
 	return c.validateUsesBelow(m, g, g, group_map)
 }
@@ -83,7 +85,7 @@ func (c *Compiler) validateUsesBelow(
 	m parse.Node,
 	g parse.Node,
 	scope parse.Node,
-	group_map map[string]bool) error {
+	group_map map[parse.Node]bool) error {
 
 	for _, u := range scope.Children() {
 		switch u.Type() {
